@@ -649,8 +649,11 @@ def ensemble_sift(X, nensembles=4, ensemble_noise=.2, noise_mode='single',
 
     p.close()
 
-    if max_imfs is None:
-        max_imfs = res[0].shape[1]
+    # Ensemble members may return different numbers of IMFs - average the IMFs
+    # which every member produced
+    nimfs = min(r.shape[1] for r in res)
+    if max_imfs is None or max_imfs > nimfs:
+        max_imfs = nimfs
 
     imfs = np.zeros((X.shape[0], max_imfs))
     for ii in range(max_imfs):
